@@ -794,6 +794,7 @@ def c10_generate(rng, tier):
     # configuration objects queried again after moves (is_superstable / legality on a live object)
     a += [s for s in genhist.gen_div_hist(rng, count(tier, 200, 3000), p_bad=0.05) if s.get("q") is not None]
     a += genhist.gen_cfg_requery(rng, count(tier, 300, 3000), nmax=count(tier, 5, 6))
+    a += genhist.gen_config_large(rng, count(tier, 30, 300))
     a += genhist.gen_parking(rng, count(tier, 400, 5000))
     # every sequence over [0..n+1]^n for small n, with and without explicit n
     import itertools as it
@@ -1059,7 +1060,7 @@ PROPS["C15"] = {"generate": c15_generate, "search": c15_search,
                 "level": "proof",
                 "rule": "graphs, divisors (magnitudes up to 10^30, also results of CFLaplacian.apply), partial/full orientations, sparse/dense scripts with plain, Unicode, long, blank-containing, digit-like and hostile names; dict (through json text), JSON file and TXT file round trips compared observationally with the original; fault enumeration per written file: byte-prefix truncations (quick: 64 evenly spaced + last 16; thorough: all) and single-byte corruptions (quick 48 random; thorough every position x 3 values): must not raise, JSON proper prefixes must read None, anything returned must be a well-formed object; missing files read None",
                 "theorems": ["graph_dict_roundtrip", "edge_list_canonical", "divisor_dict_roundtrip", "script_dict_roundtrip", "decimal_roundtrip", "orientation_dict_roundtrip", "txt_fields_roundtrip", "txt_line_roundtrip", "txt_int_field_clean", "txt_record_roundtrip",
-                             "txt_graph_file_roundtrip", "txt_divisor_file_roundtrip", "txt_orientation_file_roundtrip", "txt_script_file_roundtrip", "txt_int_roundtrip", "json_truncation_open", "txt_graph_object_roundtrip", "txt_divisor_object_roundtrip"]}
+                             "txt_graph_file_roundtrip", "txt_divisor_file_roundtrip", "txt_orientation_file_roundtrip", "txt_script_file_roundtrip", "txt_int_roundtrip", "json_truncation_open", "txt_graph_object_roundtrip", "txt_divisor_object_roundtrip", "txt_script_object_roundtrip", "txt_orientation_object_roundtrip"]}
 
 
 # ---- C19
@@ -1070,6 +1071,7 @@ def c19_generate(rng, tier):
     # isomorphism classes of connected simple graphs: a sample of the 112 classes on 6 vertices
     # (quick), all of them and all 853 classes on 7 vertices (thorough)
     a += genhist.gen_bounds_atlas(rng, 40, 6, 6) if tier == "quick" else genhist.gen_bounds_atlas(rng, 10 ** 6, 6, 7)
+    a += genhist.gen_bounds_double(rng, 10 ** 6)
     b = genhist.gen_closed(rng, tier)
     extra = []
     # true gonality of the graphs behind the multipartite closed form, by the verified search (model side only)
